@@ -81,6 +81,30 @@ InitCtl ==
        /\ Configured(pair[1], pair[2])  \* the control function only exists when something is configured
        /\ allow = pair[1] /\ deny = pair[2] /\ addr = a /\ net = n /\ reach = "control" /\ extra = <<>>
 
+\* ---- nested ranges sharing a base address (still family "ctl": the control function) --------------
+\* 10.0.0.0/8, /16, /24, /32 and fc00::/7, /16, /64 all START at the same address: a list holding several of them, in
+\* any order (narrower first, wider first, mixed), denotes the UNION of its ranges - the widest decides.  An entry
+\* is never "already covered" because an earlier entry contains its base address.
+Ten16b == C4(10, 0, 0, 0, 16)   Ten24b == C4(10, 0, 0, 0, 24)   Ten32b == C4(10, 0, 0, 0, 32)
+ULA16 == C6(252, 0, 16)         ULA64 == C6(252, 0, 64)
+NestRanges4 == {Ten8, Ten16b, Ten24b, Ten32b}
+NestRanges6 == {ULA, ULA16, ULA64}
+NestAddrs4 == {A4(10, 0, 0, 0), A4(10, 0, 0, 9), A4(10, 0, 9, 0), A4(10, 9, 0, 0), A4(10, 200, 0, 1), A4(11, 0, 0, 0)}
+NestAddrs6 == {A6(252, 0, 0, 0), A6(252, 0, 0, 1), A6(252, 0, 9, 0), A6(252, 9, 0, 0), A6(253, 0, 0, 0), A6(254, 0, 0, 0)}
+NestLists(U) == UNION {[1..k -> U] : k \in 2..3}
+ASSUME /\ InCIDR(A4(10, 200, 0, 1), Ten8) /\ ~InCIDR(A4(10, 200, 0, 1), Ten16b)
+       /\ InCIDR(A4(10, 0, 9, 0), Ten16b) /\ ~InCIDR(A4(10, 0, 9, 0), Ten24b)
+       /\ InCIDR(A4(10, 0, 0, 9), Ten24b) /\ ~InCIDR(A4(10, 0, 0, 9), Ten32b) /\ InCIDR(A4(10, 0, 0, 0), Ten32b)
+       /\ InCIDR(A6(253, 0, 0, 0), ULA) /\ ~InCIDR(A6(253, 0, 0, 0), ULA16)
+       /\ InCIDR(A6(252, 0, 9, 0), ULA16) /\ ~InCIDR(A6(252, 0, 9, 0), ULA64) /\ InCIDR(A6(252, 0, 0, 1), ULA64)
+       /\ \A a \in NestAddrs4 \cup NestAddrs6 : ~InCIDR(a, BadEntry)
+InitNest ==
+    \E v6 \in BOOLEAN :
+    \E a \in (IF v6 THEN NestAddrs6 ELSE NestAddrs4), l \in NestLists(IF v6 THEN NestRanges6 ELSE NestRanges4) :
+    \E pair \in {<<<<Any4, Any6>>, l>>, <<l, <<>> >>, <<l, <<BadEntry>> >>} :
+       /\ allow = pair[1] /\ deny = pair[2] /\ addr = a /\ net = (IF v6 THEN "tcp6" ELSE "tcp4")
+       /\ reach = "control" /\ extra = <<>>
+
 \* a second A record for the same name: the next address in a fixed cycle (so that in-range and out-of-range mix)
 NextAddr(a) == CASE a = A4(127, 0, 255, 255) -> A4(127, 1, 0, 0) [] a = A4(127, 1, 0, 0) -> A4(127, 2, 0, 0)
                  [] a = A4(127, 1, 2, 3) -> A4(127, 0, 255, 255) [] a = A4(127, 1, 255, 255) -> A4(127, 1, 2, 3)
@@ -99,7 +123,7 @@ InitE2e ==
        /\ reach = path \o ":" \o kind /\ extra = x
 
 Init == /\ phase = "start" /\ verdict = "none" /\ xverdict = <<>>
-        /\ IF Family = "e2e" THEN InitE2e ELSE InitCtl
+        /\ IF Family = "e2e" THEN InitE2e ELSE (InitCtl \/ InitNest)
 Spec == Init /\ [][Next]_vars
 
 Enc(e) == IF e.bad = 0 THEN <<e.fam, e.len>> \o e.oct ELSE <<0, e.bad>>
